@@ -781,6 +781,35 @@ def resolver_details(F):
     r.ob(ok, {"retain_end after the call, by operator": {k: sorted(map(str, v)) for k, v in outcome.items()}})
     if not ok:
         r.violate("%s | retain_end" % pa["path"], F.loc(pa), "retain_end after plan_resolution_block_alt is %s (expected false for block/loop/if, true for else, unchanged otherwise): the matching `end` of a replaced construct is kept or removed wrongly" % {k: sorted(map(str, v)) for k, v in outcome.items()})
+    # semantic-after planning, decided by cases on the operator: for every branching operator each normal path creates the
+    # taken-flag and files at least one flag-guarded body; for block/loop/if/else each normal path files one unconditional body
+    ps_fn = F.one_fn(name="plan_resolution_semantic_after")
+    subj_ps = {pm["pat"]["hid"] for pm in ps_fn.get("params", []) if OPA in (pm.get("ty") or "") and pm["pat"].get("k") == "Binding"}
+
+    def cl_ps(n):
+        if n.get("k") in ("Call", "MethodCall"):
+            c_ = (n.get("callee") or "").split("::")[-1]
+            if c_ == "create_bool_flag":
+                return "FLAG"
+            if c_ == "save_flagged_body_to_resolve":
+                return "SAVE_FLAGGED"
+            if c_ in ("save_not_flagged_body_to_resolve", "save_not_flagged_body_to_resolve_inner"):
+                return "SAVE_PLAIN"
+        return None
+    branch_ops = sorted(v for v, vd in F.variants(OPA).items() if any(f_["name"] in ("relative_depth", "targets") for f_ in vd["fields"]))
+    for v_ in branch_ops + ["Block", "Loop", "If", "Else"]:
+        dec, sel, _val = variant_case(F, ps_fn, subj_ps, OPA, v_)
+        evs = {ev for ev, st_ in paths(ps_fn["body"], cl_ps, decide_if=dec, select_arms=sel) if st_ in ("fall", "ret")}
+        if v_ in ("Block", "Loop", "If", "Else"):
+            ok = bool(evs) and all(ev.count("SAVE_PLAIN") >= 1 for ev in evs)
+        else:
+            if all(not ev for ev in evs):
+                continue        # an operator with a label that the accepting predicate does not treat as a branch
+            ok = bool(evs) and all("FLAG" in ev and "SAVE_FLAGGED" in ev and ev.index("FLAG") < ev.index("SAVE_FLAGGED") for ev in evs)
+        r.ob(ok, {"semantic-after plan for": v_, "paths": sorted(map(list, evs))[:4]})
+        if not ok:
+            r.violate("%s | plan for %s" % (ps_fn["path"], v_), F.loc(ps_fn),
+                      "for %s a path through plan_resolution_semantic_after does %s: the probe is not planned on that path (neither the flag nor the deferred body exists)" % (v_, sorted(map(list, evs))[:4]))
     return r
 
 
